@@ -146,6 +146,17 @@ def variants(head, comps, rnd, d):
         pre = ''.join(imports) + ''.join('<xs:include schemaLocation="%s"/><xs:include schemaLocation="%s"/>'
                                          % (sp[i1](x), sp[i2](x)) for x in incs)
         yield 'double_include_dotted%d' % j, write(d, 'split4_%d.xsd' % j, schema_doc(hx, parts[0], pre)), True
+    # T2b nested includes: main -> sub/n1.xsd -> (relative to sub/) deep/n2.xsd; also loaded as text + base_url
+    if len(comps) >= 3:
+        third = max(1, len(comps) // 3)
+        a, b, c = comps[:third], comps[third:2 * third], comps[2 * third:]
+        imps_sub = ''.join(imports).replace('schemaLocation="', 'schemaLocation="../')
+        imps_deep = ''.join(imports).replace('schemaLocation="', 'schemaLocation="../../')
+        write(d, 'sub/deep/n2.xsd', schema_doc(hx, c, imps_deep))
+        write(d, 'sub/n1.xsd', schema_doc(hx, b, imps_sub + '<xs:include schemaLocation="deep/n2.xsd"/>'))
+        p = write(d, 'nested.xsd', schema_doc(hx, a, ''.join(imports) + '<xs:include schemaLocation="sub/n1.xsd"/>'))
+        yield 'nested_include', p, True
+        yield 'nested_include_text_base', p, True
     # T4 imports of different namespaces in another order
     yield 'import_order', write(d, 'imp.xsd', schema_doc(hx, comps, ''.join(reversed(imports)))), True
 
@@ -185,6 +196,15 @@ def judge_generated(rnd, st):
         fs = dg.applicable_faults(g, tree)
         for f in (rnd.sample(fs, min(3, len(fs))) if fs else []):
             probes.append(dg.ser(dg.apply_fault(tree, f)))
+    if cls is xmlschema.XMLSchema11 and rnd.random() < .7:
+        # XSD 1.1 default attributes: every schema document names the group (the header is shared by all the
+        # documents of a split), every complex type gets the optional attribute dfa
+        comps = comps + ['<xs:attributeGroup name="dfl"><xs:attribute name="dfa" type="xs:int"/></xs:attributeGroup>']
+        head += ' defaultAttributes="%sdfl"' % ('t:' if g.tns else '')
+        first = probes[0]
+        cut = first.index('>') - (1 if first[first.index('>') - 1] == '/' else 0)
+        probes += [first[:cut] + ' dfa="7"' + first[cut:], first[:cut] + ' dfa="x"' + first[cut:]]
+        st.cls('xsd11_default_attributes')
     d = tempfile.mkdtemp(prefix='vf_c09_')
     try:
         ref = None
@@ -192,7 +212,11 @@ def judge_generated(rnd, st):
                'ver': cls.XSD_VERSION, 'probes': probes[:3]}
         for name, path, nt in variants(head, comps, rnd, d):
             try:
-                s = cls(path)
+                if name.endswith('_text_base'):
+                    with open(path, encoding='utf-8') as f:
+                        s = cls(f.read(), base_url=d)       # the same document given as text with an explicit base
+                else:
+                    s = cls(path)
             except xmlschema.XMLSchemaException as e:
                 if name == 'base':
                     raise
